@@ -167,6 +167,12 @@ def run(ctx):
         "sources both send unrequested blocks; everywhere else a panic is a violation",
         "a document delivered out of request order may be returned or dropped (the property does not say); delivered in order it must be returned",
         "over real gRPC a refused Fetch surfaces at the first Recv, so 'open error' scenarios are replayed only on the in-process path",
-        "store side of wants-old-data (storeapi earlierThanOldestFrac, maturity) is not exercised here: a fake declares it",
+        "store side of wants-old-data (storeapi earlierThanOldestFrac, maturity) is exercised by the store family only (real hot/cold store incl. the state before the first maintenance pass); elsewhere a fake declares it",
         "totals, histograms and aggregations of the merged response are outside this check (C05/C06)",
     ]
+    # the proxy as a whole (ProxySystem.tla): a real bulk client and a real search ingestor over real in-process
+    # stores behind fault-injecting client wrappers; every recorded history must be a behaviour of the model
+    from checks import _proxysys
+    _proxysys.histories(ctx, "c16", 120 if ctx.quick() else 5000)
+    ctx.assumptions += ["whole-proxy histories: hot tier of 2 shards x 2 replicas, breaker never opens, fetch faults at stream open only, match-all queries; "
+                        "an acknowledged bulk may be missed by a search that begins before its indexing finished (StoreApi.Bulk answers before indexing: not promised by the property)"]
